@@ -336,13 +336,28 @@ func init() {
 		}
 		return out
 	}
+	c02relay := func(maxL int64) []Inst {
+		var out []Inst
+		for _, svc := range []int64{0x0201, 0x0202, 0x0203, 0x0205, 0x0206, 0x0207, 0x0208, 0x0209, 0x020a, 0x0420, 0x0421, 0x0530, 0x0531, 0x0999} {
+			for L := int64(6); L <= maxL; L++ {
+				out = append(out, Inst{Pkg: "knxnet", Fn: "HarnessC02Relay", Args: []int64{svc, L, 0}, Unwind: int(L) + 40, Note: "decode -> re-encode -> decode of every accepted byte string"})
+			}
+		}
+		for L := int64(60); L <= 66; L++ {
+			out = append(out, Inst{Pkg: "knxnet", Fn: "HarnessC02Relay", Args: []int64{0x0204, L, 1}, Unwind: 200})
+		}
+		for L := int64(68); L <= 74; L++ {
+			out = append(out, Inst{Pkg: "knxnet", Fn: "HarnessC02Relay", Args: []int64{0x0202, L, 0}, Unwind: 200})
+		}
+		return out
+	}
 	reg(&Spec{
 		ID:       "C02",
-		Quick:    func(l *loaded) []Inst { return c02(false) },
-		Thorough: func(l *loaded) []Inst { return c02(true) },
-		Covers:   []string{"C02.end"},
-		Bounds:   "encode->decode of every encodable service type (connect, connection-state, disconnect req/res, tunnelling req/ack, routing indication, search/description req/res) x every cEMI kind (L_Data req/con/ind with application and control units, L_Raw req/con/ind, L_Busmon.ind, unsupported code); all field values symbolic; quick: info length {0,1,2,255}, payload {1,2,15,16,254}, raw {0,1,5}, families {0,1,2}, name length {0,1,29}; thorough: every info length 0..255, payload 1..254, raw 0..40, families 0..20, names 0..29",
-		Outside:  "the decode->re-encode->decode direction for arbitrary accepted byte strings is decided for cEMI L_Data frames by C11 (byte layout both ways) and for datapoints by C06; lengths not enumerated in the quick tier",
+		Quick:    func(l *loaded) []Inst { return append(c02(false), c02relay(24)...) },
+		Thorough: func(l *loaded) []Inst { return append(c02(true), c02relay(48)...) },
+		Covers:   []string{"C02.end", "C02.relay.accepted", "C02.relay.rejected"},
+		Bounds:   "encode->decode of every encodable service type (connect, connection-state, disconnect req/res, tunnelling req/ack, routing indication, search/description req/res) x every cEMI kind (L_Data req/con/ind with application and control units, L_Raw req/con/ind, L_Busmon.ind, unsupported code); all field values symbolic; quick: info length {0,1,2,255}, payload {1,2,15,16,254}, raw {0,1,5}, families {0,1,2}, name length {0,1,29}; thorough: every info length 0..255, payload 1..254, raw 0..40, families 0..20, names 0..29; plus decode -> re-encode -> decode of fully symbolic byte strings (see outside_bounds for the lengths)",
+		Outside:  "decode->re-encode->decode: every byte string of length 6..24 (thorough ..48) under each service identifier, description responses of 60..66 bytes with a device-information DIB first, search responses of 68..74 bytes; longer strings; lengths not enumerated in the quick tier of the encode->decode direction",
 		Assume:   []string{"validity predicate: first payload byte < 64, unnumbered units carry sequence 0, hardware address 6 bytes, friendly name of non-NUL Latin-1 characters, DIB type octets 1 and 2", "x/text ISO-8859-1 codec replaced by the built-in byte<->rune map"},
 	})
 
@@ -522,7 +537,7 @@ func init() {
 
 	c17 := func(maxK int64) []Inst {
 		var out []Inst
-		for client := int64(0); client < 3; client++ {
+		for client := int64(0); client < 5; client++ {
 			for k := int64(2); k <= maxK; k++ {
 				for mode := int64(0); mode < 3; mode++ {
 					out = append(out, Inst{Pkg: "knx", Fn: "HarnessC17", Args: []int64{client, k, mode}})
@@ -537,7 +552,7 @@ func init() {
 		Quick:    func(l *loaded) []Inst { return c17(3) },
 		Thorough: func(l *loaded) []Inst { return c17(5) },
 		Covers:   []string{"C17.end"},
-		Bounds:   "tunnel client, router client and the group layer; bursts of 2..3 (thorough ..5) accepted telegrams; consumer always waiting, absent for the whole burst, or taking one telegram and then stalling; every interleaving of the server side, the parked delivery goroutines and the consumer",
+		Bounds:   "tunnel client (pushInbound directly and through handleTunnelReq in UDP and TCP mode), router client and the group layer; bursts of 2..3 (thorough ..5) accepted telegrams; consumer always waiting, absent for the whole burst, or taking one telegram and then stalling; every interleaving of the server side, the parked delivery goroutines and the consumer",
 		Outside:  "bursts longer than 5; the runtime's FIFO order among senders that are already blocked is not modelled (any blocked sender may be served), which only adds schedules",
 	})
 
@@ -658,6 +673,12 @@ func init() {
 				}
 			}
 		}
+		for late := int64(0); late < 2; late++ {
+			for end := int64(0); end < 3; end++ {
+				out = append(out, Inst{Pkg: "knx", Fn: "HarnessC10Relay", Args: []int64{late, end}, Ctx: ctx + 1, Race: true,
+					KnownRaces: []string{"Tunnel.control", "Tunnel.channel"}, Note: "late response while the server goroutine ends"})
+			}
+		}
 		return out
 	}
 	reg(&Spec{
@@ -665,8 +686,8 @@ func init() {
 		NoNative: true,
 		Quick:    func(l *loaded) []Inst { return c10(false) },
 		Thorough: func(l *loaded) []Inst { return c10(true) },
-		Covers:   []string{"C10.end"},
-		Bounds:   "Close injected into an idle tunnel, a pending Send, a pending heartbeat exchange, a pending reconnect, parked inbound deliveries and a tunnel whose socket already died; 1 or 2 concurrent closers; with and without a reader; real serve/process/heartbeat/relay goroutines (<= 9 threads), context bound 2 (thorough 3), scheduler step bound 30000; happens-before race check (vector clocks over go, channel, mutex, WaitGroup, Once and timer edges) on every field of the Tunnel object along all explored schedules",
+		Covers:   []string{"C10.end", "C10.relay.end"},
+		Bounds:   "Close injected into an idle tunnel, a pending Send, a pending heartbeat exchange, a pending reconnect, parked inbound deliveries and a tunnel whose socket already died; 1 or 2 concurrent closers; with and without a reader; a late connection-state response / tunnelling acknowledgement followed by the end of the server goroutine (disconnect response, socket death, Close) inside the relay's offer window; real serve/process/heartbeat/relay goroutines (<= 9 threads), context bound 2 (thorough 3), scheduler step bound 30000; happens-before race check (vector clocks over go, channel, mutex, WaitGroup, Once and timer edges) on every field of the Tunnel object along all explored schedules",
 		Outside:  "3..4 concurrent closers; memory-model effects below happens-before; the receiver goroutine of the real TunnelSocket (C16)",
 		Assume:   []string{"in-memory socket whose Close is counted", "sync.Once/WaitGroup/Mutex are engine primitives"},
 	})
@@ -752,6 +773,13 @@ func init() {
 			{Pkg: "knx", Fn: "HarnessC05In", Args: []int64{2, 1}, Ctx: 2, MaxSched: 20000},
 			{Pkg: "knx", Fn: "HarnessC05In", Args: []int64{2, 2}, Ctx: 2, MaxSched: 20000},
 		}
+		// inductive core: one real client step from arbitrary counters (the harnesses of C03/C04)
+		for tcp := int64(0); tcp < 1; tcp++ {
+			for ready := int64(0); ready < 2; ready++ {
+				out = append(out, Inst{Pkg: "knx", Fn: "HarnessC04Step", Args: []int64{tcp, ready, 0}, Note: "inductive core: receiver step from every counter value"})
+			}
+		}
+		out = append(out, Inst{Pkg: "knx", Fn: "HarnessC03Exchange", Args: []int64{2, 0, -1, 0}, Note: "inductive core: sender exchange from every counter value"})
 		if thorough {
 			out = append(out,
 				Inst{Pkg: "knx", Fn: "HarnessC05Out", Args: []int64{3, 2}, Ctx: 2, MaxSched: 30000},
@@ -766,9 +794,9 @@ func init() {
 		NoNative: true,
 		Quick:    func(l *loaded) []Inst { return c05(false) },
 		Thorough: func(l *loaded) []Inst { return c05(true) },
-		Covers:   []string{"C05.out.end", "C05.in.end", "C05.out.after_timeout"},
+		Covers:   []string{"C05.out.end", "C05.in.end", "C05.out.after_timeout", "C04.delivered", "C03.matched"},
 		Bounds:   "composition of the real client with a rule-following gateway and a lossy/duplicating/delaying network (harness goroutines): outbound 2 (thorough 3) telegrams from a symbolic start number (wrap included) with up to 3 faults (request lost / duplicated with a delayed copy / overtaken, acknowledgement lost / duplicated), real Send, real handleTunnelRes relay goroutines, virtual-time resend and timeout; inbound 2 (3) telegrams with up to 2 (3) faults through the real process() goroutine; context bound 2",
-		Outside:  "6 telegrams per direction, more than 3 faults, more than one delayed copy in flight; the one-step harnesses of C03/C04 carry the induction over long histories",
+		Outside:  "6 telegrams per direction, more than 3 faults, more than one delayed copy in flight; the one-step harnesses of C03/C04 (included here as the inductive core, from every counter value) carry the induction over long histories and the 255->0 wrap of the receive counter",
 		Assume:   []string{"gateway and network are harness code written from the tunnelling rules in the property"},
 	})
 }
